@@ -1115,7 +1115,9 @@ pub fn monitor(run: &Run) -> (Vec<Finding>, Stats) {
                     }
                     let bound = s.max_step * (hi - lo) / 2.;
                     // (an empty declared range, min > max, has no meaningful step bound or membership)
-                    if lo <= hi && !((a - b).abs() <= bound * (1. + 1e-9) + 1e-300 + 4. * f64::EPSILON * a.abs().max(b.abs())) {
+                    // (the bound is for a parameter INSIDE its range - the premise of R_C19_every_move_bounded; a state read
+                    //  from a file may start outside, and its first move on that parameter is the clamp into the range)
+                    if lo <= hi && *b >= lo && *b <= hi && !((a - b).abs() <= bound * (1. + 1e-9) + 1e-300 + 4. * f64::EPSILON * a.abs().max(b.abs())) {
                         v.push(Finding {
                             property: "C19",
                             what: format!(
